@@ -10,7 +10,7 @@ from engine.cab import CTX, SymInt, explore
 from engine.ref import ConcreteNet
 from checks import hist
 
-PREFIXES = [(), ("succ",), ("bfs",), ("succ", "skiprem"), ("blockd",), ("minp",)]
+PREFIXES = [(), ("succ",), ("bfs",), ("succ", "skiprem"), ("blockd",), ("sccd",), ("minp",)]
 
 
 def declare(prefix, n):
